@@ -96,6 +96,7 @@ PRIV_FILES = ('secret song.mp3', 'demo tape.mp3', 'rare/live bootleg.flac', 'rar
 QUERIES = ('song', 'song', 'tape', 'song -long', '*ong', 'nomatch', 'secret', 'concert live', 'mp3', 'bootleg', 'demo',
            'live', 'alive', '-song', 'secret song', 'mix', '*ive -alive', 'mix -secret', 'road', 'flac')
 TICKETS = (0, 1, 2, 2 ** 31, 2 ** 32 - 1)
+MINIMAL_FILES = {'pub': ['song one.mp3', 'mix tape.ogg'], 'priv': ['secret song.mp3']}
 
 
 # ----------------------------------------------------------------------------- generator
@@ -223,8 +224,8 @@ def simplify(plan):
         yield dict(plan, candidates=plan['candidates'] - 1)
     if plan.get('children'):
         yield dict(plan, children=plan['children'] - 1)
-    if plan.get('files') != {'pub': list(PUB_FILES), 'priv': list(PRIV_FILES)}:
-        yield dict(plan, files={'pub': list(PUB_FILES), 'priv': list(PRIV_FILES)})
+    if plan.get('files') != MINIMAL_FILES:
+        yield dict(plan, files=copy.deepcopy(MINIMAL_FILES))
     for key in ('pub', 'priv'):
         files = plan.get('files', {}).get(key, [])
         for f in files:
